@@ -1,6 +1,6 @@
 (* Cancel/ProofsTok.v — lemmas about the TOKEN machine of Cancel/Model.v (C21). *)
 From Salsa Require Import Base.
-From Salsa.Cancel Require Import TokK Model.
+From Salsa.Cancel Require Import Model.
 
 (* ---------- check ---------- *)
 
